@@ -210,10 +210,15 @@ def run(chk, tier):
         if c.proto != 'Tcp':
             for o in c.dispatch_outs:
                 d = [(vshow(a), v) for a, v, _ in o.st.decisions]
-                g = [v for a, v in d if a.startswith('call:RangeInclusive::contains(')]
+                g = [v for a, v in d if a.startswith('call:RangeInclusive::contains(') or a.startswith('in_range(')]
+                rng = [re.fullmatch(r'in_range\((.*), (\d+), (\d+)\)', a) for a, v in d if a.startswith('in_range(')]
                 built = any(e[0] == 'pkt-new' for e in o.st.events)
                 if not g:
                     bad4 = 'a trace does not test the packet size range'
+                elif rng and rng[0] and not (rng[0].group(1).endswith('packet_size.0') or rng[0].group(1).endswith('packet_size')):
+                    bad4 = 'the range test is applied to %s, not to the configured packet size' % rng[0].group(1)[:60]
+                elif rng and rng[0] and (int(rng[0].group(2)), int(rng[0].group(3))) != ((48 if c.fam == 'V6' else 28), prog.const_val('trippy_core::net::channel::MAX_PACKET_SIZE')):
+                    bad4 = 'the packet size is tested against %s..=%s; the headers need %d and the buffers hold MAX_PACKET_SIZE' % (rng[0].group(2), rng[0].group(3), 48 if c.fam == 'V6' else 28)
                 elif g[0] == 0 and (built or vshow(o.value) != 'Result::Err(Error::InvalidPacketSize(net.packet_size.0))'):
                     bad4 = 'outside the allowed range the dispatch still builds a packet / does not return InvalidPacketSize'
             if bad4:
